@@ -16,9 +16,12 @@ EXTENDS FileStructure
 
 BookKeys == {NameSize, NamePrev, NameXRefStm, NameType, NameW, NameIndex, NameLength, NameFilter, NameDecodeParms}
 
+\* objects that describe the structure of the file a document was loaded from and are not written again: object
+\* streams and cross-reference streams, and the (untyped) linearization parameter dictionary.  A plain dictionary
+\* that merely has /Type /XRef or /Type /ObjStm is an ordinary object (since /repo writer fix, third round).
 IsBookObj(o) ==
-    \/ TypeNameOf(o) \in {NameXRef, NameObjStm}
-    \/ (o.k \in {"dict", "stream"} /\ Has(o.v, NameLinearized))
+    \/ (o.k = "stream" /\ TypeNameOf(o) \in {NameXRef, NameObjStm})
+    \/ (o.k = "dict" /\ Has(o.v, NameLinearized) /\ ~Has(o.v, NameType))
 
 \* document-side JSON -> [version, binmark, trailer (map), objs (seq of [num, gen, val])]
 DocOf(j) ==
